@@ -168,8 +168,10 @@ def impl_builtin(case):
     n, m = case["n"], case["m"]
     try:
         det = CBS(_mk(case["score"]), threshold_scale=case["scale"], level=case["level"], min_segment_length=m,
-                  max_interval_length=case["mx"], growth_factor=case["g"]).fit(X)
-        y = det.predict(X)
+                  max_interval_length=case["mx"], growth_factor=case["g"]).fit(core.wrap_container(case, X))
+        # ndarray or DataFrame; the fitted detector may have been used on other data with the same index before
+        core.prior_use(det, case, X)
+        y = det.predict(core.wrap_container(case, X))
         T = det.scores
         ivs = [(int(a), int(b)) for a, b in zip(T["interval_start"], T["interval_end"])]
         sc = to_local_anomaly_score(_mk(case["score"])).fit(X)
